@@ -1233,8 +1233,17 @@ udp_timer_cb(void *arg)
 		if (p->dialer && now > p->next_creq) {
 			udp_send_creq(ep, p);
 		}
-		if (p->next_wake < ep->next_wake) {
-			ep->next_wake = p->next_wake;
+		// A wake time that is not in the future has been served:
+		// for a listener's pipe whose peer is silent the next thing
+		// to do is its expiry.  (Sleeping for next_wake - now <= 0
+		// would spin, and -1 means forever: no pipe of this endpoint
+		// would ever expire again.)
+		nni_time wake = p->next_wake;
+		if (wake <= now) {
+			wake = p->dialer ? now + 1 : p->expire + 1;
+		}
+		if (wake < ep->next_wake) {
+			ep->next_wake = wake;
 		}
 	}
 	refresh = ep->next_wake == NNI_TIME_NEVER
